@@ -48,6 +48,8 @@ func init() {
 		"Time":        rtTime,
 		"Dec":         func(fr *frame, a []value) value { return decimalOf(a[0], types.Typ[types.Uint64], false) },
 		"HeldLocks":   rtHeldLocks,
+		"Yield":       func(fr *frame, a []value) value { fr.p.yield(); return nil },
+		"WaitUntil":   rtWaitUntil,
 		"LockLog":     func(fr *frame, a []value) value { return len(fr.p.lockLog) },
 		"Catch":       rtCatch,
 		"CtxTimeout":  rtCtxTimeout,
@@ -169,3 +171,21 @@ func rtConcretize(fr *frame, a []value) value {
 var _ = fmt.Sprint
 var _ = token.ADD
 var _ = atomic.AddInt64
+
+// WaitUntil(cond): the current thread is not runnable until cond() holds; the
+// scheduler evaluates cond (interpreted, side-effect free) when it looks for
+// runnable threads.
+func rtWaitUntil(fr *frame, a []value) value {
+	p := fr.p
+	for !p.truth(call(p, fr, 0, a[0], nil)) {
+		if p.thr == nil {
+			p.violation("deadlock", nil, "WaitUntil can never be satisfied: the path has no other thread")
+			panic(pathAbort{"deadlock"})
+		}
+		t := p.thr.cur
+		t.waitPred, t.waitFr = a[0], fr
+		p.yield()
+		t.waitPred = nil
+	}
+	return nil
+}
